@@ -1,6 +1,6 @@
 """What is claimed, per property. A property appears in CLAIMS only once its checker exists and
 passes on the unchanged tree."""
-FIX_COMMITS = []
+FIX_COMMITS = ["4e9e139"]
 
 CLAIMS = {
     "C09": dict(
@@ -11,6 +11,15 @@ CLAIMS = {
         ref="DESIGN.md §3 C09",
         note="trusts CPython's ast parser, the abstract evaluator of kverif/dtable.py and that dataclass __init__ calls __post_init__",
         technique="static analysis: finite decision-table extraction by abstract AST evaluation + CFG dominance",
+    ),
+    "C19": dict(
+        text="Decides that no builtin exception raised by a tag-resolution step (read of the tag, split, import, attribute "
+             "lookup, class test, registry lookup, error construction) can leave from_json unconverted, for every JSON kind "
+             "of tag value: typestate + exception-flow analysis over a finite kind domain with an explicit effect table. "
+             "Exceptions from importing third-party module bodies and from user _from_json are outside the property.",
+        ref="DESIGN.md §3 C19",
+        note="trusts the effect table of str methods / import_module / getattr / issubclass / dict.get (probed on CPython 3.12) and the builtin exception hierarchy",
+        technique="static analysis: typestate and exception-flow abstract interpretation of the resolver's AST",
     ),
 }
 
